@@ -68,13 +68,15 @@ type SpecSet struct {
 	Contracts map[string]*Contract
 	Preds     map[string]*Pred // key: pkg.name and also bare name (if unique)
 	Tables    []*TableFact
+	FieldInvs map[string]string // "pkg.Type.field" -> "nonnil"
+	TypeInvs  map[string]*Clause // "pkg.Type" -> invariant over `self` (pointer to the type)
 	Errors    []string
 	Files     []string
 }
 
 var clauseKw = map[string]bool{"func": true, "method": true, "closure": true, "requires": true, "ensures": true, "modifies": true,
 	"loop": true, "pure": true, "props": true, "pred": true, "external": true, "iface": true, "functype": true, "ghost": true,
-	"trusted": true, "panics": true, "table": true, "decreases": true, "assert": true, "fn": true, "nopanic": true}
+	"trusted": true, "panics": true, "table": true, "fieldinv": true, "typeinv": true, "decreases": true, "assert": true, "fn": true, "nopanic": true}
 
 var reParamList = regexp.MustCompile(`^([^\s(]+|\([^)]*\)\.[^\s(]+)\s*(?:\(([^)]*)\))?\s*(?:\(([^)]*)\))?\s*$`)
 
@@ -93,7 +95,7 @@ func splitNames(s string) []string {
 }
 
 func loadSpecs(repo string, pkgDirs map[string]string) *SpecSet {
-	ss := &SpecSet{Contracts: map[string]*Contract{}, Preds: map[string]*Pred{}}
+	ss := &SpecSet{Contracts: map[string]*Contract{}, Preds: map[string]*Pred{}, FieldInvs: map[string]string{}, TypeInvs: map[string]*Clause{}}
 	var names []string
 	for n := range pkgDirs {
 		names = append(names, n)
@@ -234,6 +236,26 @@ func (ss *SpecSet) parseFile(pkg, path, data string) {
 			pr.Body = e
 			ss.Preds[pkg+"."+name] = pr
 			cur = nil
+		case "typeinv":
+			f := strings.Fields(rc.text)
+			if len(f) < 2 {
+				ss.errf(path, rc.line, "typeinv <Type> <expr over self>")
+				continue
+			}
+			src := strings.TrimSpace(rc.text[len(f[0]):])
+			e, err := parseSpecExpr(src)
+			if err != nil {
+				ss.errf(path, rc.line, "%v", err)
+				continue
+			}
+			ss.TypeInvs[pkg+"."+f[0]] = &Clause{Kind: "typeinv", Src: src, Expr: e, File: path, Line: rc.line}
+		case "fieldinv":
+			f := strings.Fields(rc.text)
+			if len(f) != 2 || f[1] != "nonnil" {
+				ss.errf(path, rc.line, "fieldinv <Type.field> nonnil")
+				continue
+			}
+			ss.FieldInvs[pkg+"."+f[0]] = f[1]
 		case "table":
 			f := strings.Fields(rc.text)
 			if len(f) != 2 {
